@@ -692,6 +692,9 @@ func (r *Runner) builtin(ctx context.Context, pos syntax.Pos, name string, args 
 		}
 		switch len(args) {
 		case 0:
+			// Like exit: the status of the last command.
+			exit.code = r.lastExit.code
+			exit.err = r.lastExit.err
 		case 1:
 			n, err := strconv.Atoi(args[0])
 			if err != nil {
